@@ -26,6 +26,7 @@ type LoopSpec struct {
 	Ordinal    int
 	Invariants []*Clause
 	Assumes    []*Clause // assumed at the loop head, never checked (reported)
+	Exits      []*Clause // obligations on every edge that leaves the loop (exhaustion, break, goto out; not return)
 	Decreases  *Clause
 	Unroll     int
 }
@@ -126,7 +127,7 @@ var topKeywords = map[string]bool{"func": true, "extern": true, "pred": true, "g
 	"lemma": true, "axiom": true, "benign": true, "fn": true, "immutable": true, "constructors": true, "ghostgroup": true, "chaninv": true, "modset": true}
 var clauseKeywords = map[string]bool{"props": true, "arith": true, "requires": true, "ensures": true,
 	"modifies": true, "loop": true, "invariant": true, "decreases": true, "unroll": true, "trusted": true,
-	"maypanic": true, "guarantee": true, "guards": true, "ghostparam": true, "inst": true, "onreturn": true, "onspawn": true, "lockassume": true, "assume": true, "nochan": true, "keeps": true}
+	"maypanic": true, "guarantee": true, "guards": true, "ghostparam": true, "inst": true, "onreturn": true, "onspawn": true, "lockassume": true, "assume": true, "nochan": true, "keeps": true, "exit": true}
 
 type logicalLine struct {
 	kw   string
@@ -679,6 +680,15 @@ func (cs *Contracts) loadFile(path, pkgPath string) error {
 				return fmt.Errorf("%s:%d: guarantee outside lock", path, l.line)
 			}
 			curLock.Guarantees = append(curLock.Guarantees, c)
+		case "exit":
+			c, err := mkClause(l)
+			if err != nil {
+				return err
+			}
+			if curLoop == nil {
+				return fmt.Errorf("%s:%d: exit outside loop", path, l.line)
+			}
+			curLoop.Exits = append(curLoop.Exits, c)
 		case "decreases":
 			c, err := mkClause(l)
 			if err != nil {
